@@ -48,6 +48,10 @@ HISTORIES = [
     ("delete", BASE, {"pre": PRE, "body": [("delete", "A", "b")]}, infl("Delete", src="b"), {}),
     ("create", BASE, {"pre": PRE, "body": [("create", "A", "x/y")]}, infl("Create", dst="x/y"), {}),
     ("first_start", [], {"startup": True, "pre": [], "body": []}, infl("Start"), {}),
+    # orderly stop, database taken back to the previous release's schema, start (migrations run)
+    ("upgrade_from_v4", BASE, {"upgrade": "plain", "pre": [], "body": []}, infl("Start"), {}),
+    ("upgrade_from_v4_after_delivery", BASE, {"upgrade": "deliver", "pre": [], "body": []}, infl("Start"), {}),
+    ("upgrade_from_v4_gappy", GAPPY, {"upgrade": "deliver", "pre": [], "body": []}, infl("Start"), {}),
 ]
 THOROUGH_EXTRA = [
     ("expunge_many", GAPPY + [("store", "A", [[1, S]], "+", ["Deleted"], False, False)],
@@ -64,6 +68,11 @@ def _run(job):
     from harness import crashdriver
     name, prefix, step, inf, wkw, ks = job
     try:
+        if step.get("upgrade"):
+            if not ks:
+                return name, [], 1, None
+            exps, n = crashdriver.upgrade_experiments(prefix, world_kw=wkw, deliver=step["upgrade"] == "deliver")
+            return name, exps, n, None
         exps, n = crashdriver.crash_experiments(prefix, step, world_kw=wkw, ks=ks)
         return name, exps, n, None
     except BaseException:
@@ -81,7 +90,7 @@ def to_record(name, e, inf):
         keys = {x[0] for x in st["msgs"]}
         ack[m] = {"vv": st["vv"], "next": st["next"], "sel": bool(st["active"] and not st["nosel"]),
                   "msgs": [[u, i, fl] for k, u, i, fl in st["msgs"]]}
-        unn[m] = sorted({i for k, i in st["files"] if k not in keys})
+        unn[m] = sorted({i for k, i in st["files"] if k not in keys} | set(e.get("delivered", {}).get(m, [])))
     revealed = [r for r in e["ledger0"]["revealed"]]
     obs = {"started": bool(e["obs"].get("started")) and not e["obs"].get("error"), "mb": {}}
     for m, o in e["obs"].get("mb", {}).items():
